@@ -125,6 +125,12 @@ func ruleKA(c *Checker) {
 			switch {
 			case pong != nil && pong.Body != nil && returnsGlobalError(pong.Body, "errKeepaliveTimeout", 0):
 				c.ok("KA-1", key, instrPos(bp.Instr), "has a pong-expiry case that returns errKeepaliveTimeout")
+				// the pong timer is armed on a ping tick and nowhere else: a wait that watches the expiry
+				// must also take the ping tick (KA-2 then checks that the leg arms the timer), otherwise a
+				// peer that goes silent while the loop sits here with no ping outstanding is never detected
+				c.decide(caseOn(bp.Cases, pingDesc) != nil, "KA-1", key+"|also takes the ping tick", instrPos(bp.Instr),
+					"the wait has a case on pingTicker.Ticks() as well",
+					"the wait watches pong expiry but has no case on the ping tick: the pong timer is only ever armed on a ping tick, so while the loop waits here (e.g. on a full window) a peer that goes silent with no ping outstanding is never detected")
 			case pong != nil:
 				c.fail("KA-1", key, instrPos(bp.Instr), "the pong-expiry case does not end the loop with errKeepaliveTimeout")
 			case bounded:
